@@ -62,6 +62,7 @@ type FuncContract struct {
 	Checks     []*Clause // like ensures, but may name locals of the function; checked, never assumed by callers
 	Binds      []*Bind
 	Callsites  []*CallsiteClause
+	Captures   []*Capture // names bound to results of calls, usable in check clauses
 	Loops      map[int]*LoopContract
 	Params     map[string]*ParamContract
 	Inline     bool
@@ -79,6 +80,13 @@ type FuncContract struct {
 type CallsiteClause struct {
 	CallText string
 	Req      *Clause
+}
+
+// Capture names the i-th result of the (last executed) call whose source text starts with CallText.
+type Capture struct {
+	CallText string
+	Name     string
+	Index    int
 }
 
 // Bind instantiates a ghost parameter for the calls made while evaluating a call expression of the given source text.
@@ -157,7 +165,7 @@ var clauseKeywords = map[string]bool{
 	"writes": true, "loop": true, "invariant": true, "decreases": true, "param": true,
 	"inline": true, "terminates": true, "pure": true, "purerec": true, "axiom": true,
 	"ghost": true, "ghostfn": true, "lemma": true, "extern": true, "functype": true,
-	"trusted": true, "opaque": true, "noshare": true, "ghostparam": true, "check": true, "bind": true, "behavior": true, "assumes": true, "callsite": true, "index": true, "use": true,
+	"trusted": true, "opaque": true, "noshare": true, "ghostparam": true, "check": true, "bind": true, "behavior": true, "assumes": true, "callsite": true, "capture": true, "index": true, "use": true,
 }
 
 // rewriteImplies converts "A ==> B" to "implies(A, B)" and "A <==> B" to "iff(A,B)" at every nesting level.
@@ -523,6 +531,21 @@ func (cs *Contracts) loadFile(path, pkgPath string) error {
 			} else {
 				cur.Callsites = append(cur.Callsites, cc)
 			}
+		case "capture":
+			// capture "call text prefix" name = resultIndex
+			rest := strings.TrimSpace(l.rest)
+			j := strings.Index(rest[1:], "\"")
+			if !strings.HasPrefix(rest, "\"") || j < 0 {
+				return fmt.Errorf("%s: capture syntax: capture \"text\" name = index", l.where)
+			}
+			callText := rest[1 : 1+j]
+			rest = strings.TrimSpace(rest[2+j:])
+			var nm string
+			var idx int
+			if _, err := fmt.Sscanf(strings.ReplaceAll(rest, "=", " = "), "%s = %d", &nm, &idx); err != nil {
+				return fmt.Errorf("%s: capture needs name = index", l.where)
+			}
+			cur.Captures = append(cur.Captures, &Capture{CallText: callText, Name: nm, Index: idx})
 		case "bind":
 			// bind "call text" name = expr
 			rest := strings.TrimSpace(l.rest)
